@@ -36,7 +36,7 @@ RULE = ("(a) cases: (line sequence chunk, configuration); one execution per data
 ASSUMPTIONS = ["finite value alphabets", "output paths are always fresh (the library prompts before overwriting)"]
 REQUIRED_CLASSES = ['ineligible-line-skipped', 'all-eligible', 'selector-cuts', 'without-model-fluxes', 'with-model-fluxes', 'mode-2d', 'mode-3d', 'format-v2', 'history-depth-2',
                     'form-path', 'form-object', 'form-list', 'op-plot', 'op-filter_output', 'op-write_parameters', 'op-write_parameter_ranges', 'op-extract_parameters',
-                    'nan-inf-record-roundtrip', 'longer-file', 'law-in-other-unit']
+                    'nan-inf-record-roundtrip', 'longer-file', 'law-in-other-unit', 'op-plot_params_1d', 'op-plot_params_2d']
 TIMEOUT = {'quick': 900, 'thorough': 3600}
 
 KINDS = {'A': (1, 1, 1), 'B': (1, 4, 3), 'C': (1, 0, 9), 'D': (0, 2, 3)}
@@ -63,6 +63,9 @@ def setup(tier, seed):
             for first in range(18):
                 out.append({'part': 'b', 'fmt': fmt, 'n_src': n_src, 'first_op': first, 'depth': depth})
     out.append({'part': 'c'})
+    for n_src in (1, 3):
+        for fname in ('plot_params_1d', 'plot_params_2d'):
+            out.append({'part': 'b2', 'n_src': n_src, 'fname': fname})
     return {'tier': tier, 'seed': seed, 'cases': out}
 
 
@@ -81,6 +84,8 @@ def run_case(ctx, case, rec, d):
         return _part_a(ctx, case, rec, d)
     if case['part'] == 'b':
         return _part_b(ctx, case, rec, d)
+    if case['part'] == 'b2':
+        return _part_b2(ctx, case, rec, d)
     return _part_c(ctx, case, rec, d)
 
 
@@ -366,3 +371,71 @@ def _part_c(ctx, case, rec, d):
             rec.outcome(len(got))
             if [canon(_strip(g, True)) for g in got] != [canon(_strip(r, True)) for r in recs] or canon([m.model_dir, m.filters, m.extinction_law]) != canon(list(meta)):
                 rec.violation('fitinfofile|roundtrip', {'kinds': list(seq)}, {'read': len(got), 'written': len(recs)})
+
+
+def _part_b2(ctx, case, rec, d):
+    """The two parameter plots (each call renders a figure, so they are not part of the 18-operation histories):
+    three input forms, the results handed in must be unchanged, the table they are handed must not depend on the
+    form, and a writer called afterwards must give what it gives when called first."""
+    import sedfitter
+    from sedfitter.fit_info import FitInfo
+    seed = ctx['seed']
+    md, pk = pc.build(d, 'pkg', 'v2', 4, perm=[2, 0, 3, 1], n_cols=2, seed=seed)
+    fitter = pc.fitter_for(md)
+    srcs = pc.sources(pk, seed, n_sources=case['n_src'])
+    forms = ['path', 'list'] + (['object'] if case['n_src'] == 1 else [])
+    captured = []
+    orig = FitInfo.filter_table
+
+    def spy(self, input_table, additional={}):
+        r = orig(self, input_table, additional=additional)
+        captured.append(([str(x).strip() for x in np.asarray(self.model_name)], [str(x).strip() for x in r['MODEL_NAME']], [float(x) for x in r['PAR1']]))
+        return r
+    ref_first = None
+    tables = {}
+    n = 0
+    for form in forms:
+        for fname, kw in [x for x in (('plot_params_1d', {'parameter': 'PAR1', 'log_x': False}), ('plot_params_2d', {'parameter_x': 'PAR1', 'parameter_y': 'PAR2', 'log_x': False, 'log_y': False})) if x[0] == case['fname']]:
+            n += 1
+            infos = pc.fit_all(fitter, srcs)
+            if form == 'path':
+                arg = pc.write_file(os.path.join(d, 'b2_%d.fitinfo' % n), infos)
+                state = lambda: hashlib.sha1(open(arg, 'rb').read()).hexdigest()
+            else:
+                arg = infos[0] if form == 'object' else infos
+                state = lambda: canon([_strip(i, with_meta=True) for i in infos])
+            s0 = state()
+            del captured[:]
+            FitInfo.filter_table = spy
+            try:
+                getattr(sedfitter, fname)(arg, output_dir=os.path.join(d, 'pp_%d' % n), select_format=('N', 2), format='png', **kw)
+            except Exception as e:
+                from mc.runner import exc_signature
+                rec.violation('post|%s|%s' % (fname, exc_signature(e)), {'form': form}, {'type': type(e).__name__, 'msg': str(e)[:300]})
+                continue
+            finally:
+                FitInfo.filter_table = orig
+            rec.trans()
+            rec.ev()
+            rec.cls('op-' + fname)
+            rec.state(('b2', case['n_src'], form, s0))
+            rec.nontriv(('b2', case['n_src'], form, fname))
+            rec.outcome(canon(captured))
+            if state() != s0:
+                rec.violation('post|results-modified|%s|%s' % (fname, form), {'form': form}, {'problem': 'the results handed to %s are not what they were before the call' % fname})
+            tables.setdefault(fname, {})[form] = canon(captured)
+            # a writer called after the plot, on the same results
+            out = os.path.join(d, 'b2_after_%d.txt' % n)
+            sedfitter.write_parameters(arg, out, select_format=('A', 0))
+            txt = open(out).read()
+            if ref_first is None:
+                fresh = pc.fit_all(fitter, srcs)
+                ref_path = os.path.join(d, 'b2_ref.txt')
+                sedfitter.write_parameters(fresh if form != 'object' else fresh[0], ref_path, select_format=('A', 0))
+                ref_first = open(ref_path).read()
+            if txt != ref_first:
+                rec.violation('post|output-depends-on-history|write_parameters|%s' % form, {'form': form, 'after': fname}, {'problem': 'write_parameters after %s differs from write_parameters made first' % fname})
+    for fname, t in tables.items():
+        if len(set(t.values())) > 1:
+            rec.violation('post|forms-disagree|%s' % fname, {'op': fname}, {'problem': 'the table handed to the plot depends on the form the results are passed in', 'forms': list(t)})
+    rec.trace()
